@@ -64,19 +64,19 @@ Walk(c, s) ==
 WalkOf(j) == Walk(Log[j], InitSt(Log[j]))
 
 (***************************************************************************)
-(* The product explored by TLC: record i, its observed life cycle w, step k *)
+(* The product explored by TLC: record i, step k of its observed life cycle *)
 (***************************************************************************)
-VARIABLES i, w, k, bad
+VARIABLES i, k, bad
 
 Init == /\ i \in 1..NLog
-        /\ w = WalkOf(i)
         /\ k = 0
         /\ bad = {}
-Next == /\ k < Len(w)
+Next == LET w == WalkOf(i) IN
+        /\ k < Len(w)
         /\ k' = k + 1
         /\ bad' = bad \cup (IF w[k + 1].obs = "ok" THEN w[k + 1].binding ELSE {})
-        /\ UNCHANGED <<i, w>>
-Spec == Init /\ [][Next]_<<i, w, k, bad>>
+        /\ UNCHANGED i
+Spec == Init /\ [][Next]_<<i, k, bad>>
 View == <<i, k, bad>>
 
 C05 == Inv_C05(bad)
@@ -129,6 +129,6 @@ ReportOf(S) ==
     sole_in_matrix_missing |-> SetToSeq((CommitRules \cup SetupRules) \ SoleAny),
     advisory_claimed_feerate_outside_accepted |-> Cardinality(Advisory) ]
 
-Report == ReportOf(TLCEval([j \in 1..NLog |-> TLCEval(WalkOf(j))]))
-ASSUME JsonSerialize(IOEnv.CP_REPORT, Report)
+\* (not a named zero-arity definition: TLC would evaluate it a second time at start-up)
+ASSUME JsonSerialize(IOEnv.CP_REPORT, ReportOf(TLCEval([j \in 1..NLog |-> TLCEval(WalkOf(j))])))
 =============================================================================
